@@ -519,6 +519,40 @@ CONTRACTS = [
       invariants={0: {"empty": "is_ninf(max) == all(k not in _done0 for k in Key)",
                       "bound": "all(max >= fst(k) for k in _done0)",
                       "attained": "implies(not is_ninf(max), any(max == fst(k) for k in _done0))"}}),
+    # per-time snapshots: one Hypergraph per time occurring in the (half-open) window, holding exactly the hyperedges of that time with their
+    # weights; with add_all_nodes every snapshot has all nodes.  The result is a dict of objects (every field of Hypergraph lifted over the key).
+    C("subhypergraph", params={"time_window": "Opt[Pair[Int,Int]]", "add_all_nodes": "Bool"}, result="Map[Int,Obj[Hypergraph]]", pure=True,
+      locals={"res": "Map[Int,Obj[Hypergraph]]", "edges": "Bag[Key]"},
+      requires={"wf": "wf(self)"},
+      ensures={
+          "dom": "all((t in result) == any(k in E(self) and fst(k) == t and (old(time_window) is None or (old(time_window)[0] <= fst(k) and fst(k) < old(time_window)[1])) for k in Key) for t in Int)",
+          "wf": "all(implies(t in result, wf(result[t])) for t in Int)",
+          "weighted": "all(implies(t in result, weighted(result[t]) == weighted(self)) for t in Int)",
+          "E": "all(implies(t in result, (e in E(result[t])) == (pair(t, e) in E(self))) for t in Int for e in Tuple)",
+          "W": "all(implies(t in result and pair(t, e) in E(self), W(result[t], e) == W(self, pair(t, e))) for t in Int for e in Tuple)",
+          "V_all": "implies(add_all_nodes, all(implies(t in result, (n in V(result[t])) == (n in V(self))) for t in Int for n in Node))",
+          "V_own": "implies(not add_all_nodes, all(implies(t in result, (n in V(result[t])) == any(pair(t, e) in E(self) and n in e for e in Tuple)) for t in Int for n in Node))",
+      },
+      invariants={
+          0: {"done01": "all(count(_done0, k) <= 1 for k in Key)",
+              "dom": "all((t in res) == any(count(_done0, k) >= 1 and fst(k) == t and (old(time_window) is None or (old(time_window)[0] <= fst(k) and fst(k) < old(time_window)[1])) for k in Key) for t in Int)",
+              "wf": "all(implies(t in res, wf(res[t])) for t in Int)",
+              "weighted": "all(implies(t in res, weighted(res[t]) == weighted(self)) for t in Int)",
+              "E": "all(implies(t in res, (e in E(res[t])) == (count(_done0, pair(t, e)) >= 1)) for t in Int for e in Tuple)",
+              "W": "all(implies(t in res and count(_done0, pair(t, e)) >= 1, W(res[t], e) == W(self, pair(t, e))) for t in Int for e in Tuple)",
+              "V": "all(implies(t in res, (n in V(res[t])) == any(count(_done0, pair(t, e)) >= 1 and n in e for e in Tuple)) for t in Int for n in Node)"},
+          1: {"dom": "all((t in res) == (t in pre(res)) for t in Int)",
+              "wf": "all(implies(t in res, wf(res[t])) for t in Int)",
+              "weighted": "all(implies(t in res, weighted(res[t]) == weighted(self)) for t in Int)",
+              "E": "all(implies(t in res, (e in E(res[t])) == (pair(t, e) in E(self))) for t in Int for e in Tuple)",
+              "W": "all(implies(t in res and pair(t, e) in E(self), W(res[t], e) == W(self, pair(t, e))) for t in Int for e in Tuple)",
+              "V": "all(implies(t in res, (n in V(res[t])) == (any(pair(t, e) in E(self) and n in e for e in Tuple) or count(_done1, n) >= 1)) for t in Int for n in Node)"},
+          2: {"dom": "all((t in res) == (t in pre(res)) for t in Int)",
+              "wf": "all(implies(t in res, wf(res[t])) for t in Int)",
+              "weighted": "all(implies(t in res, weighted(res[t]) == weighted(self)) for t in Int)",
+              "E": "all(implies(t in res, (e in E(res[t])) == (pair(t, e) in E(self))) for t in Int for e in Tuple)",
+              "W": "all(implies(t in res and pair(t, e) in E(self), W(res[t], e) == W(self, pair(t, e))) for t in Int for e in Tuple)",
+              "V": "all(implies(t in res, (n in V(res[t])) == (any(pair(t, e) in E(self) and n in e for e in Tuple) or count(_done1, n) >= 1 or (n == node and t in _done2))) for t in Int for n in Node)"}}),
     Contract("degree[TemporalHypergraph]", "hypergraphx/measures/degree.py", ["degree"], properties=["C03", "C08"],
       params={"hg": "Obj[TemporalHypergraph]", "node": "Node", "order": "Opt[Int]", "size": "Opt[Int]"}, result="Int", pure=True,
       requires={"wf": "wf(hg)"},
